@@ -44,6 +44,12 @@ def pinref(w, r):
     k = r["k"]
     if k in ("in", "held"):
         return need(w, r["h"])
+    if k == "heldproxy":
+        # a proxy OuterPin(instance, inner pin) the caller built earlier and uses again (the SAME object)
+        p = getattr(w, "proxies", {}).get(r["h"])
+        if p is None:
+            raise Skip("no such held proxy")
+        return p
     inst = need(w, r["i"])
     ip = need(w, r["p"])
     if k == "stored":
@@ -419,6 +425,13 @@ def _(w, e):
 @op("hold_opin")
 def _(w, e):
     return [pinref(w, {"k": "stored", "i": e["inst"], "p": e["ipin"]})]
+
+
+@op("hold_proxy")
+def _(w, e):
+    """The caller builds a proxy outer pin and keeps the object for later calls."""
+    w.proxies[e["name"]] = sdn.OuterPin.from_instance_and_inner_pin(need(w, e["inst"]), need(w, e["ipin"]))
+    w.count("probe.proxy_pin_held")
 
 
 # -- names and data -----------------------------------------------------------------
